@@ -171,13 +171,14 @@ func GenSpec(t *rapid.T) *Spec {
 		for i := 0; i < na; i++ {
 			l := fmt.Sprintf("am%d", i)
 			s.AMs = append(s.AMs, AM{Scheme: rapid.SampledFrom([]string{"", "http", "https"}).Draw(t, l+"-scheme"), Timeout: rapid.SampledFrom([]string{"", "10s", "30s"}).Draw(t, l+"-timeout"),
-				Prefix: rapid.SampledFrom([]string{"", "/am"}).Draw(t, l+"-prefix"), Targets: []string{rapid.SampledFrom([]string{"am-0:9093", "am-1:9093"}).Draw(t, l+"-target")}, Auth: genAuth(t, g, l, false)})
+				Prefix: rapid.SampledFrom([]string{"", "/am"}).Draw(t, l+"-prefix"), Targets: []string{rapid.SampledFrom([]string{"am-0:9093", "am-1:9093"}).Draw(t, l+"-target")}, Auth: genAuth(t, g, l, false),
+				Relabel: genRelabels(t, l+"-relabel", false, 1)})
 		}
 	}
 	nw := rapid.IntRange(0, 3).Draw(t, "nRemoteWrite")
 	for i := 0; i < nw; i++ {
 		l := fmt.Sprintf("rw%d", i)
-		s.RemoteWrite = append(s.RemoteWrite, Remote{URL: fmt.Sprintf("http://remote-%d.example/api/v1/write", i), Name: rapid.SampledFrom([]string{"", fmt.Sprintf("w%d", i)}).Draw(t, l+"-name"),
+		s.RemoteWrite = append(s.RemoteWrite, Remote{URL: fmt.Sprintf("http://%sremote-%d.example/api/v1/write", rapid.SampledFrom([]string{"", "", "tenant-a@"}).Draw(t, l+"-user"), i), Name: rapid.SampledFrom([]string{"", fmt.Sprintf("w%d", i)}).Draw(t, l+"-name"),
 			Timeout: rapid.SampledFrom([]string{"", "30s", "1m"}).Draw(t, l+"-timeout"), Auth: genRemoteWriteAuth(t, g, l), Relabel: genRelabels(t, l+"-relabel", true, 1),
 			Capacity: rapid.SampledFrom([]int{0, 0, 500, 2500}).Draw(t, l+"-cap")})
 	}
